@@ -17,7 +17,7 @@
    save_success stores for k); [crash_after]/[json_crash]/[sq_crash]/[dumb_crash] = the disk after the first k steps
    of a dump / session; [dumb_read] = what the next process gets for a key; [torn old new] = first |old| bytes of
    new ++ (old without its first |new| bytes). *)
-From DoitV Require Import Base Dispatch Backends Runner Crash BackendsP CrashP.
+From DoitV Require Import Base Dispatch Backends Runner Crash BackendsP CrashP Action ActionClass ActionClassP.
 Local Open Scope nat_scope.
 
 (* ===================== interrupt half ===================== *)
@@ -86,6 +86,58 @@ Theorem C06_interrupt_record_untouched : forall tasks wake_rank calc_rank contin
   session_db recd m (r_tr r) k = m k.
 Proof. exact interrupt_record_untouched. Qed.
 Print Assumptions C06_interrupt_record_untouched.
+
+(* ---- "raised inside ANY action": the class that executes the callable (Model/ActionClass.v) ----
+   CPython = PythonAction (a callable, a (callable, args, kwargs) tuple or a PythonAction object in `actions`),
+   CPyInteractive = doit.tools.PythonInteractiveAction, CCmdCallable = CmdAction(callable).  [ca_tag a] = how the
+   callable of action a ended; RBaseExc = it raised a BaseException that is no Exception (KeyboardInterrupt, SystemExit,
+   GeneratorExit, a subclass of the user).  Correspondence: harness/c06.py part (1e) runs the `execute` of the real
+   classes on every (class, way the callable ends, exception class) and compares with [enc_cls]; the interrupt sweep
+   of (1e) has every class at the interruption point, with the real runners.
+   In every class such an exception leaves `execute` (is neither a success nor a failure), and only such an exception does;
+   no class makes a success of a callable that raised. *)
+Theorem C06_base_exception_leaves_every_action_class : forall a,
+  (ca_tag a = RBaseExc -> cls_execute a = APropagates) /\
+  (cls_execute a = APropagates -> ca_tag a = RBaseExc) /\
+  (cls_execute a = AOk -> ca_tag a <> RBaseExc /\ ca_tag a <> RRaises).
+Proof. exact action_class_cases. Qed.
+Print Assumptions C06_base_exception_leaves_every_action_class.
+
+(* The interrupt is never swallowed.  Let the table's t_outcome be what Task.execute makes of each task's actions
+   ([acts_of j]: class and end of every callable).  If the run started the actions of task k and the first action of k that
+   does not succeed is one -- of any class -- whose callable raises such an exception, then the run ENDS there
+   (StopInterrupt k: the exception reaches the caller of run_all after the flush, exit status 4 in the harness's encoding):
+   no callable of k after that one is started, k is neither saved nor reported successful, the trace is
+   b ++ [execute k; close; teardowns] -- nothing is selected or executed after it -- and every task saved or reported
+   successful in b is one whose actions ALL succeeded. *)
+Theorem C06_interrupt_never_swallowed : forall tasks wake_rank calc_rank continue_ always (acts_of : name -> list cact),
+  (forall j, t_outcome (get_task tasks j) = outcome_of (cls_task_outcome (acts_of j))) ->
+  forall fuel selected r s k pre a post,
+  serial tasks wake_rank calc_rank continue_ always fuel (r_init selected) None = (r, s) ->
+  In (EExecute k) (r_tr r) ->
+  acts_of k = pre ++ a :: post -> Forall (fun x => cls_execute x = AOk) pre -> ca_tag a = RBaseExc ->
+  s = StopInterrupt k /\
+  cls_started (acts_of k) = S (length pre) /\
+  ~ In (ESave k) (r_tr r) /\ ~ In (ESuccess k) (r_tr r) /\
+  exists b tds, r_tr r = b ++ [EExecute k] ++ EClose :: map ETeardown tds /\
+                ~ In EClose b /\ (forall j, ~ In (ETeardown j) b) /\
+                (forall j, In (ESave j) b \/ In (ESuccess j) b -> Forall (fun x => cls_execute x = AOk) (acts_of j)).
+Proof. exact interrupt_never_swallowed. Qed.
+Print Assumptions C06_interrupt_never_swallowed.
+
+(* Read the other way: a run that ended by an interrupt at k did so because an action of k raised (all actions of k before
+   it succeeded, none after it was started), and a task that was saved or reported successful is another task, none of
+   whose callables raised anything -- a record is never the record of an execution that was cut short. *)
+Theorem C06_interrupt_any_action_class : forall tasks wake_rank calc_rank continue_ always (acts_of : name -> list cact),
+  (forall j, t_outcome (get_task tasks j) = outcome_of (cls_task_outcome (acts_of j))) ->
+  forall fuel selected r k,
+  serial tasks wake_rank calc_rank continue_ always fuel (r_init selected) None = (r, StopInterrupt k) ->
+  (exists pre a post, acts_of k = pre ++ a :: post /\ Forall (fun x => cls_execute x = AOk) pre /\ ca_tag a = RBaseExc /\
+                      cls_started (acts_of k) = S (length pre)) /\
+  (forall j, In (ESave j) (r_tr r) \/ In (ESuccess j) (r_tr r) ->
+             j <> k /\ Forall (fun x => cls_execute x = AOk /\ ca_tag x <> RBaseExc /\ ca_tag x <> RRaises) (acts_of j)).
+Proof. exact interrupt_any_class. Qed.
+Print Assumptions C06_interrupt_any_action_class.
 
 (* ... and every backend answers in_(j) in the next session exactly as that map (C07 refinement), whatever the
    history of earlier sessions *)
@@ -216,6 +268,30 @@ Example C06_interrupt_nonvacuous :
   exists r, serial ex_tasks (fun _ _ => 0%N) (fun x => x) false false 100 (r_init [1%N]) None = (r, StopInterrupt 1%N) /\
             r_tr r = [EGetStatus 0%N; EExecute 0%N; ESave 0%N; ESuccess 0%N; EGetStatus 1%N; EExecute 1%N; EClose].
 Proof. eexists. vm_compute. split; reflexivity. Qed.
+
+(* the action-class theorems: t0 = [PythonAction returning True; PythonInteractiveAction returning a dict] succeeds,
+   t1 = [CmdAction(callable) -> `true`; PythonInteractiveAction raising KeyboardInterrupt; PythonAction never started];
+   the table of ex_tasks is the one these actions give, and the run is the interrupted run of C06_interrupt_nonvacuous *)
+Definition ex_acts (n : name) : list cact :=
+  match n with
+  | 0%N => [Build_cact CPython RTrue 0; Build_cact CPyInteractive RDict 0]
+  | 1%N => [Build_cact CCmdCallable RStr 0; Build_cact CPyInteractive RBaseExc 0; Build_cact CPython RTrue 0]
+  | _ => []
+  end.
+Example C06_action_class_nonvacuous :
+  (forall j, t_outcome (get_task ex_tasks j) = outcome_of (cls_task_outcome (ex_acts j))) /\
+  ex_acts 1%N = [Build_cact CCmdCallable RStr 0] ++ Build_cact CPyInteractive RBaseExc 0 :: [Build_cact CPython RTrue 0] /\
+  Forall (fun x => cls_execute x = AOk) [Build_cact CCmdCallable RStr 0] /\
+  cls_started (ex_acts 1%N) = 2 /\
+  map cls_execute [Build_cact CPython RBaseExc 0; Build_cact CPyInteractive RBaseExc 0; Build_cact CCmdCallable RBaseExc 0]
+    = [APropagates; APropagates; APropagates] /\
+  map cls_execute [Build_cact CPython RFalse 0; Build_cact CPyInteractive RFalse 0; Build_cact CCmdCallable RFalse 0]
+    = [AFailed; AOk; AError].
+Proof.
+  split.
+  - intro j. destruct j as [|[p|p|]]; try reflexivity; destruct p; reflexivity.
+  - repeat split; try reflexivity. repeat constructor.
+Qed.
 
 (* ... with a prior record {key 0 -> 5} of the interrupted task 1 and a record saved for task 0: the DB after the run
    records task 0 and still holds exactly the old record of task 1 *)
